@@ -67,7 +67,7 @@ pub mod other_types {
     #[nutype(sanitize(with = sanp), validate(predicate = okp), derive(Debug, Clone, Copy, PartialEq, Eq, PartialOrd, Ord, Hash, AsRef, Deref, Borrow, Into, Display))]
     pub struct NP(P);
 
-    #[nutype(sanitize(with = |t: T| t), validate(predicate = |t: &T| *t != T::default()), derive(Debug, Clone, PartialEq, Eq, PartialOrd, Ord, Hash, AsRef, Deref, Borrow, Into, Display))]
+    #[nutype(sanitize(with = |t: T| t), validate(predicate = |t: &T| *t != T::default()), derive(Debug, Clone, PartialEq, Eq, PartialOrd, Ord, Hash, AsRef, Deref, Borrow, Display))]
     pub struct W<T: Default + PartialEq + Clone>(T);
 
     #[nutype(derive(Debug, Clone, PartialEq, AsRef, Deref, IntoIterator))]
@@ -104,7 +104,7 @@ pub mod other_types {
         let mut h1 = RecHasher::new(); let mut h2 = RecHasher::new();
         v.hash(&mut h1); a.hash(&mut h2);
         assert!(h1 == h2 && h1.n == 1);
-        let i: i16 = v.into(); assert!(i == a);
+        let i: i16 = v.into_inner(); assert!(i == a);
     }
 
     macro_rules! display_case { ($name:ident, $fmt:literal) => {
